@@ -1387,6 +1387,12 @@ def _ct_helper_body(ck, helper):
     from contracts.c14_flow import reaching
     try:
         rel = ck.rel if helper in ck.mod.functions else EX + "open_office/_shared.py"
+        try:        # round 7: the helper is under a contract verified on its body (c14_access.run_helpers); when that holds its shape is irrelevant
+            from contracts import c14_access as A
+            if A.helper_verified(ck.mod.repo, rel, helper, contracts):
+                return None
+        except Exception:  # noqa
+            pass
         hk = SI.Checker("C14", rel, helper, ck.mod.repo, inline=False)
         if hk.fn is None or len(hk.fn.args.args) != 1:
             return f"content-type helper {helper} not found"
@@ -2378,7 +2384,21 @@ def accessors(repo, tier):
         return {"obligations": [g], "functions": []}
 
 
-EXTRA = [_site_runner(i) for i in range(len(SITES))] + [image_sites, sniffers_agree, seq_lemmas, pdf_content_type, rel_type_selection, odf_length, accessors]
+def content_type_helpers(repo, tier):
+    """Round 7: the content-type helpers of the library (xlsx `_get_content_type`, ODF `guess_content_type`) under a contract verified on the
+    real body over a symbolic part name (contracts/c14_access.py::run_helpers); the call sites keep the syntactic `content-type#` view, which
+    the verified contract implies for the raster extensions."""
+    try:
+        from contracts import c14_access as A
+        return confirm_natively(A.run_helpers(repo, tier, contracts), repo)
+    except Exception as e:  # noqa
+        g = ground_obligation("C14/xlsx_extractor.py::_get_content_type/ensures#executable", False, f"not executable: {type(e).__name__}: {e}"[:300], XLSX,
+                              kind="ensures", definite=False)
+        return {"obligations": [g], "functions": []}
+
+
+EXTRA = [_site_runner(i) for i in range(len(SITES))] + [image_sites, sniffers_agree, seq_lemmas, pdf_content_type, rel_type_selection, odf_length, accessors,
+                                                        content_type_helpers]
 
 
 def lemmas():
